@@ -467,6 +467,26 @@ pub open spec fn next_size_spec(b: StorageBlock) -> int {
 /// the address a list-item cell holds
 pub open spec fn item_addr<T: BasicDataCustom>(d: BasicData<T>) -> usize { match d { BasicData::ListItem(i) => i, _ => 0 } }
 
+/// Stands for the middle of garnish_impl.rs::end_list (rule R8-cut): `&mut self.data_mut()[range]` (vstd gives IndexMut over a range
+/// no specification), the loop that counts the non-Empty cells of that window, and `slice::sort_by` with the comparator
+/// "associations by symbol first, everything else after". Assumed: std's sort is a permutation of the window that is sorted
+/// for that comparator and touches nothing outside it; the count is the number of cells that are not Empty.
+#[verifier::external_body]
+pub fn verif_count_and_sort_associations<T: BasicDataCustom>(data: &mut Vec<BasicData<T>>, start: usize, end: usize) -> (count: usize)
+    requires
+        start <= end <= old(data)@.len(),
+        forall|k: int| start <= k < end ==> ((#[trigger] old(data)@[k]) is Empty || old(data)@[k] is AssociativeItem),
+    ensures
+        final(data)@.len() == old(data)@.len(),
+        forall|k: int| 0 <= k < old(data)@.len() && !(start <= k < end) ==> #[trigger] final(data)@[k] == old(data)@[k],
+        count <= end - start,
+        forall|k: int| start <= k < start + count ==> (#[trigger] final(data)@[k]) is AssociativeItem,
+        forall|k: int| start + count <= k < end ==> (#[trigger] final(data)@[k]) is Empty,
+        forall|i: int, j: int| start <= i < j < start + count ==> assoc_key(#[trigger] final(data)@[i]) <= assoc_key(#[trigger] final(data)@[j]),
+        // a permutation: every association of the window is still there
+        forall|j: int| start <= j < end && (#[trigger] old(data)@[j]) is AssociativeItem ==> exists|k: int| start <= k < start + count && #[trigger] final(data)@[k] == old(data)@[j],
+{ unimplemented!() }
+
 /// Stand for `<slice>.iter().map(|c| c.as_char().unwrap()).collect()` / `.as_byte()` in get_char_list_iter / get_byte_list_iter
 /// (iterator adapters, rule R8-cut; the slicing expression itself stays in the verified text). Assumed: one element per cell of
 /// the window; a cell that is not a Char / Byte would make the real `unwrap()` panic - the window is required to hold only such cells.
